@@ -88,6 +88,8 @@ def harness_factory(expr, k, muts):
         keep = [root] + pool             # detached objects stay alive: they must simply not notify
         if steps[0] == "dchild":
             keep.append(G.SHARED)
+            if ex.flag("dchild_assigned_before_observe"):
+                root.dchild = pool[0]
         G.FAILED[id(root)], G.DETACHED[id(root)] = [], []
         G.STASH.pop(id(root), None)
         events = []
@@ -202,6 +204,23 @@ def anytrait_harness(ex):
         return {"seq": seq}
     finally:
         _eh.pop_exception_handler()
+
+
+def alien_in_place_then_replace(v):
+    """known-finding helper (anybox expressions; mutation indices: 0 good box, 1 broken box, 2 None, 3 append, 4 append alien):
+    an object that cannot be hooked up got into an observed list IN PLACE (the append raised), later the list's owner is replaced"""
+    muts = []
+    i = 0
+    while "mut%d" % i in v:
+        muts.append(v["mut%d" % i])
+        i += 1
+    for i, m in enumerate(muts):
+        if m == 4 and any(x in (0, 1) for x in muts[:i]) and any(x in (0, 1, 2) for x in muts[i + 1:]):
+            return True
+    return False
+
+
+KNOWN_HELPERS = {"c08_alien_in_place_then_replace": alien_in_place_then_replace}
 
 
 def obligations(tier, build):
